@@ -90,6 +90,16 @@ class Session:
                 break
         return all_obs
 
+    def reconfigure(self, cfg):
+        """Continue the same recorded trace under another configuration (empty table)."""
+        self.cfg = cfg
+        self.driver.configure(cfg)
+        self.driver.reset()
+        self.records.append(cfg.record())
+        self.frames.append(("cfg", cfg.describe()))
+        self.records.append({"ev": "reset"})
+        self.frames.append(None)
+
     def reset(self):
         if not self.dead:
             self.driver.reset()
